@@ -81,9 +81,11 @@ def impl_run(case):
         mf = sa.matching_function()
         bm = sa.best_match()
         res = {"matching": np.array(mf), "best": {"idx": int(bm.idx), "value": float(bm.value),
+                                                  "distance": float(bm.distance),
                                                   "segment": [int(x) for x in bm.segment],
                                                   "path": [[int(a), int(b)] for a, b in bm.path]}}
-        ms = [{"idx": int(m.idx), "value": float(m.value), "segment": [int(x) for x in m.segment]}
+        ms = [{"idx": int(m.idx), "value": float(m.value), "segment": [int(x) for x in m.segment],
+               "distance": float(m.distance)}
               for m in sa.kbest_matches(**kw)]
         res["kbest"] = ms
         # the extracted iterator machine on this object's matching function and segment begins
@@ -151,6 +153,13 @@ def judge(case, got, exp):
         if exp["tab"]["%d,%d" % (b, e)] != exp["best"][e]:
             return {"kind": "segment-does-not-realise-value:" + eng, "segment": [b, e],
                     "dtw": exp["tab"]["%d,%d" % (b, e)], "matching": exp["best"][e]}
+        # SAMatch.distance: the (penalised) DTW distance of the segment, i.e. value * len(query)
+        for m in [bm] + r["kbest"]:
+            v = exp["best"][m["idx"]]
+            dd = math.sqrt(v) if v != math.inf else math.inf
+            if not (m["distance"] == dd or abs(m["distance"] - dd) <= 1e-12 * max(1.0, dd)):
+                return {"kind": "match-distance-is-not-the-dtw-distance:" + eng, "idx": m["idx"],
+                        "got": m["distance"], "dtw": dd}
         path = bm["path"]
         if not path or path[0][0] != 0 or path[0][1] != b or path[-1] != [lq - 1, e]:
             return {"kind": "path-endpoints-wrong:" + eng, "path": path, "segment": [b, e]}
